@@ -28,6 +28,11 @@ func codecPool(a *aspec.ASpec) {
 		aspec.NamedSchema{Name: "PoolA", Schema: objSchema(aspec.Prop{Name: "name", Schema: str, Req: true}, aspec.Prop{Name: "tag", Schema: str})},
 		aspec.NamedSchema{Name: "PoolB", Schema: objSchema(aspec.Prop{Name: "id", Schema: i64, Req: true})},
 		aspec.NamedSchema{Name: "PoolC", Schema: objSchema(aspec.Prop{Name: "flag", Schema: aspec.Schema{K: "bool"}}, aspec.Prop{Name: "when", Schema: aspec.Schema{K: "datetime"}})},
+		aspec.NamedSchema{Name: "PoolD", Schema: func() aspec.Schema {
+			o := objSchema(aspec.Prop{Name: "note", Schema: str})
+			o.AddlK, o.Addl = "schema", &str
+			return o
+		}()},
 		aspec.NamedSchema{Name: "VarDog", Schema: objSchema(aspec.Prop{Name: "kind", Schema: str, Req: true}, aspec.Prop{Name: "bark", Schema: str, Req: true})},
 		aspec.NamedSchema{Name: "VarCat", Schema: objSchema(aspec.Prop{Name: "kind", Schema: str, Req: true}, aspec.Prop{Name: "meow", Schema: i64, Req: true})},
 		aspec.NamedSchema{Name: "VarMemo", Schema: objSchema(aspec.Prop{Name: "author", Schema: str}, aspec.Prop{Name: "subject", Schema: str, Req: true})},
